@@ -4,6 +4,7 @@ import (
 	"encoding/json"
 	"fmt"
 	"strconv"
+	"strings"
 	"testing"
 
 	"pgregory.net/rapid"
@@ -127,6 +128,7 @@ func init() {
 		want, got, _ := c01Check(t, "C03", "TestC03_LongRuns", &c)
 		t.Logf("replay ok: %s ref %s", got, want)
 	}
+	replayers["TestC03_DeepLeft"] = replayers["TestC03_LongRuns"]
 	replayers["TestC03_Table"] = func(t *testing.T, raw json.RawMessage) {
 		var c c03Case
 		if err := json.Unmarshal(raw, &c); err != nil {
@@ -280,5 +282,87 @@ func TestC03_LongRuns(t *testing.T) {
 			hasE = hasE || o == 'E'
 		}
 		r.Case(text, hasE, map[string]string{"outcomes": string(outs), "mode": strconv.Itoa(mode), "result": res.String()}, fmt.Sprintf("len:%d", n/8*8), "mode:"+strconv.Itoa(mode))
+	})
+}
+
+// c03Operand returns a leaf of known outcome on c03Root.
+func c03Operand(o byte, i int) bx.Expr {
+	switch o {
+	case 'T':
+		return []bx.Expr{&bx.Match{Sel: bx.Sel{Parts: []string{"a"}}, Op: bx.OpEq, Lit: "1"}, &bx.Match{Sel: bx.Sel{Parts: []string{"s"}}, Op: bx.OpNe, Lit: "web-" + strconv.Itoa(i)},
+			&bx.Match{Sel: bx.Sel{Parts: []string{"l"}}, Op: bx.OpIn, Lit: "1"}}[i%3]
+	case 'F':
+		return []bx.Expr{&bx.Match{Sel: bx.Sel{Parts: []string{"a"}}, Op: bx.OpEq, Lit: strconv.Itoa(i + 2)}, &bx.Match{Sel: bx.Sel{Parts: []string{"s"}}, Op: bx.OpEq, Lit: "web-" + strconv.Itoa(i)},
+			&bx.Match{Sel: bx.Sel{Parts: []string{"l"}}, Op: bx.OpEmpty}}[i%3]
+	}
+	return []bx.Expr{&bx.Match{Sel: bx.Sel{Parts: []string{"owner"}}, Op: bx.OpEq, Lit: "ops"}, &bx.Match{Sel: bx.Sel{Parts: []string{"l"}}, Op: bx.OpEq, Lit: "1"},
+		&bx.Match{Sel: bx.Sel{Parts: []string{"a", "b"}}, Op: bx.OpEmpty}}[i%3]
+}
+
+// TestC03_DeepLeft: the table must hold at every nesting depth, not only for the right-nested
+// chains the grammar produces without parentheses. Trees are built the way a program builds a
+// filter incrementally - `(` + expr + `) and ` + clause, `not (` + expr + `)` - so that up to
+// 14 operators are waiting for their left operand (or a `not` for its operand) at the same
+// time on one root-to-leaf path; leaves have a known outcome and the expected result is the
+// table applied bottom-up.
+func TestC03_DeepLeft(t *testing.T) {
+	r := rec(t, "C03", c03Rule)
+	strT := uni.Scalar(uni.KString)
+	root := &uni.Node{T: uni.MapOf(strT, uni.Iface()), Keys: []*uni.Node{uni.Str("a"), uni.Str("s"), uni.Str("l")},
+		Elems: []*uni.Node{uni.InIface(uni.Int(uni.KInt, 1)), uni.InIface(uni.Str("db-0")), uni.InIface(uni.List(uni.SliceOf(uni.Scalar(uni.KInt)), uni.Int(uni.KInt, 1)))}}
+	d := root.Interface()
+	toSet := map[byte]ref.Set{'T': ref.T, 'F': ref.F, 'E': ref.E}
+	maxDepth := 12
+	if thorough {
+		maxDepth = 14
+	}
+	rapid.Check(t, func(t *rapid.T) {
+		depth := rapid.IntRange(1, maxDepth).Draw(t, "depth")
+		drawLeaf := func(i int) (bx.Expr, ref.Set) {
+			o := "TTTFFFE"[rapid.IntRange(0, 6).Draw(t, "leaf")]
+			return c03Operand(o, i), toSet[o]
+		}
+		e, want := drawLeaf(0)
+		var shape []byte
+		for lvl := 1; lvl <= depth; lvl++ {
+			k := rapid.IntRange(0, 4).Draw(t, "op")
+			if _, isNot := e.(*bx.Not); isNot && k >= 4 {
+				k = 0 // `not not x` is folded by the parser: no pending operator
+			}
+			switch k {
+			case 0, 1:
+				// a flat right-hand chain of 1..3 clauses hangs off each level
+				rhs, ro := drawLeaf(lvl)
+				if rapid.IntRange(0, 3).Draw(t, "rchain") == 0 {
+					r2, o2 := drawLeaf(lvl + 100)
+					rhs, ro = &bx.Or{L: rhs, R: r2}, tblOr(ro, o2)
+				}
+				e, want = &bx.And{L: e, R: rhs}, tblAnd(want, ro)
+				shape = append(shape, '&')
+			case 2, 3:
+				rhs, ro := drawLeaf(lvl)
+				if rapid.IntRange(0, 3).Draw(t, "rchain") == 0 {
+					r2, o2 := drawLeaf(lvl + 100)
+					rhs, ro = &bx.And{L: rhs, R: r2}, tblAnd(ro, o2)
+				}
+				e, want = &bx.Or{L: e, R: rhs}, tblOr(want, ro)
+				shape = append(shape, '|')
+			default:
+				e, want = &bx.Not{X: e}, tblNot(want)
+				shape = append(shape, '!')
+			}
+		}
+		rend := bx.NewRenderer(chooser(t))
+		rend.MaxParen = 0
+		text, _ := rend.Render(e)
+		res := runImpl(text, d, Opts{})
+		c := newEvalCase(text, e, root, Opts{})
+		if res.CreateErr != nil {
+			t.Fatalf("harness: %q rejected: %v", text, res.CreateErr)
+		}
+		if res.Panic != nil || res.Outcome() != want {
+			violation(t, "C03", "TestC03_DeepLeft", c, "left-nested tree (levels, innermost first: %s): got %s, the table applied bottom-up gives %s\n expr: %s", shape, res, want, c.TextQ)
+		}
+		r.Case(text, depth >= 9, map[string]string{"levels": string(shape), "paren_depth": strconv.Itoa(strings.Count(text, "(")), "result": res.String()}, fmt.Sprintf("depth:%d", depth))
 	})
 }
